@@ -1207,13 +1207,13 @@ Proof.
       assert (Hself : forall n0, In n0 (cm_inputs c) -> ~ In n0 (cm_outputs c)).
       { intros n0 In0 O. apply (output_node_needs_producer st1 c n0 I1 Ic O (Hin n0 In0)). exact L1'. }
       split; [split; [exact W'|]|split; [exact (mono_trans _ _ _ M1 M)|split]].
-      * intros k0 v1 Hl. cbn [lookup_val] in Hl. destruct (key_eqb k0 (KC name)) eqn:E0.
+      * intros k0 v1 Hl. cbn [bs_vals bs_world lookup_val] in Hl |- *. destruct (key_eqb k0 (KC name)) eqn:E0.
         -- apply key_eqb_eq in E0. subst k0. assert (v1 = v) by congruence. subst v1. cbn [entry_ok]. rewrite Fc. split.
            ++ intros n0 In0. apply (in_vals_mono _ _ _ M). exact (Hin n0 In0).
            ++ intros Sv. apply (run_command_recorded _ _ _ _ _ _ (proj1 I1) Wc Hself Er Sv).
         -- apply (entry_ok_mono _ _ _ _ _ M). apply (entry_ok_world st1 c w' k0 v1 I1 Ic L1' Fr Hl).
-      * unfold in_vals. cbn [lookup_val]. rewrite key_eqb_refl. discriminate.
-      * intros x Hx Hn. cbn [lookup_val]. destruct (key_eqb x (KC name)) eqn:E0.
+      * unfold in_vals. cbn [bs_vals lookup_val]. rewrite key_eqb_refl. discriminate.
+      * intros x Hx Hn. cbn [bs_vals lookup_val]. destruct (key_eqb x (KC name)) eqn:E0.
         -- apply key_eqb_eq in E0. subst x. exfalso.
            assert (existsb (key_eqb (KC name)) stack = true) by (apply existsb_exists; exists (KC name); split; [exact Hx | apply key_eqb_refl]).
            congruence.
@@ -1295,13 +1295,11 @@ Proof.
     intros S. destruct E as [_ E]. specialize (E S). destruct (find_cmd_In _ _ _ Fc) as [Ic _]. split.
     + intros A. apply recorded_ok_valid; try assumption. apply cmd_wf. exact Ic.
     + intros T. unfold recorded_ok in E. rewrite T in E. exact (proj2 E).
-  - cbn [entry_ok] in E. destruct (lookup_rule d (KN n)) as [| | |m| |m ps| | |] eqn:R; try exact Logic.I.
-    + rewrite E. reflexivity.
-    + assert (m = n).
-      { unfold lookup_rule in R. destruct (producers d n); [|destruct (N.eqb (node_type n) 1); discriminate R].
-        destruct (node_virtual n); [discriminate R|]. destruct (N.eqb (node_type n) 1); [discriminate R|]. inversion R. reflexivity. }
-      subst m. rewrite E. rewrite file_valid_run. reflexivity.
-    + intros Pv. rewrite Pv. reflexivity.
+  - cbn [entry_ok] in E. cbn [lookup_rule] in E |- *. destruct (producers d n) as [|c ps] eqn:P.
+    + destruct (node_virtual n) eqn:Vn.
+      * rewrite E. reflexivity.
+      * destruct (N.eqb (node_type n) 1); [exact Logic.I|]. rewrite E, file_valid_run. reflexivity.
+    + destruct (N.eqb (node_type n) 1); [exact Logic.I|]. intros Pv. rewrite Pv. reflexivity.
   - cbn [lookup_rule]. destruct (find_target (d_targets d) t); exact Logic.I.
 Qed.
 
@@ -1322,3 +1320,105 @@ Theorem clean_world_fixpoint F d src t st :
 Proof.
   intros WF H. unfold clean in H. apply (clean_fixpoint F d 1 WF _ _ _ _ _ (wf_world_of_sources src) H).
 Qed.
+
+(* ================================================================================================ *)
+(* non-vacuity: a description with three commands                                                   *)
+(*   C.a: src -> mid ; C.b: mid src2 -> out out2 ; C.all (phony): out out2 -> <all> ; target "" = <all> *)
+(* ================================================================================================ *)
+
+Definition ex_src : path := [115;114;99].
+Definition ex_src2 : path := [115;114;99;50].
+Definition ex_mid : path := [109;105;100].
+Definition ex_out : path := [111;117;116].
+Definition ex_out2 : path := [111;117;116;50].
+Definition ex_all : path := [60;97;108;108;62].
+Definition ex_def (name : bytes) (ins outs : list path) (args : list bytes) : cdef :=
+  mkCdef name ins outs false false false [] args [] [] 0 true false.
+Definition ex_ca : command := mkCmd TShell (ex_def [67;46;97] [ex_src] [ex_mid] [[65]]) [].
+Definition ex_cb : command := mkCmd TShell (ex_def [67;46;98] [ex_mid; ex_src2] [ex_out; ex_out2] [[66]]) [].
+Definition ex_call : command := mkCmd TPhony (ex_def [67;46;97;108;108] [ex_out; ex_out2] [ex_all] []) [].
+Definition ex_d3 : desc := mkDesc [ex_ca; ex_cb; ex_call] [] [([], [ex_all])].
+Definition ex_sources : list (path * bytes) := [(ex_src, [49]); (ex_src2, [50])].
+Definition ex_state : bstate :=
+  match clean cat_fn ex_d3 ex_sources [] with BOk st => st | _ => mkBS empty_world [] [] end.
+
+Example ex_wf_d3 : wf_desc ex_d3.
+Proof.
+  unfold wf_desc. split; [|split; [|split]].
+  - cbn. repeat (constructor; [cbn; intuition discriminate|]). constructor.
+  - intros c [<-|[<-|[<-|[]]]]; unfold wf_command; cbn; (split; [repeat (constructor; [cbn; intuition discriminate|]); constructor|]);
+      (split; [discriminate|]); intros [H|H]; discriminate H.
+  - intros c1 c2 o [<-|[<-|[<-|[]]]] [<-|[<-|[<-|[]]]] O1 O2; try reflexivity; cbn in O1, O2; exfalso; intuition congruence.
+  - intros c o [<-|[<-|[<-|[]]]] O; cbn in O; intuition (subst; reflexivity).
+Qed.
+
+(* the clean build succeeds, runs C.a then C.b (the phony command runs its empty body last), and leaves
+   out = "B0(A0(1)2)", out2 = "B1(A0(1)2)" *)
+Example ex_clean_ok : clean cat_fn ex_d3 ex_sources [] = BOk ex_state.
+Proof. vm_compute. reflexivity. Qed.
+
+Example ex_clean_contents :
+  content_w (bs_world ex_state) ex_mid = Some [65;48;40;49;41] /\
+  content_w (bs_world ex_state) ex_out = Some [66;48;40;65;48;40;49;41;50;41] /\
+  content_w (bs_world ex_state) ex_out2 = Some [66;49;40;65;48;40;49;41;50;41] /\
+  bs_ran ex_state = [[67;46;97;108;108]; [67;46;98]; [67;46;97]].
+Proof. vm_compute. repeat split; reflexivity. Qed.
+
+(* every command value recorded by the clean build is valid in the clean world *)
+Example ex_clean_null_build :
+  cmd_valid ex_d3 (bs_world ex_state) ex_ca (val_of ex_state (KC [67;46;97])) = Valid /\
+  cmd_valid ex_d3 (bs_world ex_state) ex_cb (val_of ex_state (KC [67;46;98])) = Valid /\
+  cmd_valid ex_d3 (bs_world ex_state) ex_call (val_of ex_state (KC [67;46;97;108;108])) = Valid /\
+  file_valid (bs_world ex_state) ex_src (val_of ex_state (KN ex_src)) = true.
+Proof. vm_compute. repeat split; reflexivity. Qed.
+
+(* tampering with the LAST output of C.b (deleting it, or overwriting it with a newer stamp) is noticed *)
+Example ex_tamper_last_output :
+  cmd_valid ex_d3 (del (bs_world ex_state) ex_out2) ex_cb (val_of ex_state (KC [67;46;98])) = Invalid /\
+  cmd_valid ex_d3 (put (bs_world ex_state) ex_out2 [120] (fresh (bs_world ex_state) mode_file 1)) ex_cb
+            (val_of ex_state (KC [67;46;98])) = Invalid.
+Proof. vm_compute. split; reflexivity. Qed.
+
+(* the hypotheses of tamper_detected are met by that instance *)
+Example ex_tamper_hyps :
+  In ex_out2 (cm_outputs ex_cb) /\ node_virtual ex_out2 = false /\
+  tampered ex_d3 (bs_world ex_state) (del (bs_world ex_state) ex_out2) ex_out2.
+Proof.
+  split; [right; left; reflexivity|]. split; [reflexivity|]. apply tamper_delete. vm_compute. reflexivity.
+Qed.
+
+(* an observable edit of src invalidates the input node; the hypotheses of source_edit_detected are met *)
+Example ex_source_edit :
+  wf_world (bs_world ex_state) /\ observable (bs_world ex_state) (fresh (bs_world ex_state) mode_file 2) /\
+  file_valid (bs_world ex_state) ex_src (val_of ex_state (KN ex_src)) = true /\
+  file_valid (put (bs_world ex_state) ex_src [55;55] (fresh (bs_world ex_state) mode_file 2)) ex_src
+             (val_of ex_state (KN ex_src)) = false.
+Proof.
+  split; [exact (proj1 (clean_world_fixpoint cat_fn ex_d3 ex_sources [] ex_state ex_wf_d3 ex_clean_ok))|].
+  split; [apply fresh_observable|]. vm_compute. split; reflexivity.
+Qed.
+
+(* re-running C.b in the clean world: same contents, new stamps, the old value is no longer valid *)
+Example ex_rerun_cb :
+  shell_outputs_hold cat_fn (bs_world ex_state) ex_cb /\
+  exists w', run_external cat_fn 2 (bs_world ex_state) ex_cb (Some (val_of ex_state (KC [67;46;98])))
+                          [val_of ex_state (KN ex_mid); val_of ex_state (KN ex_src2)]
+             = Some (w', command_result 2 w' (cm_outputs ex_cb), true) /\
+             content_w w' ex_out = content_w (bs_world ex_state) ex_out /\
+             cmd_valid ex_d3 w' ex_cb (val_of ex_state (KC [67;46;98])) = Invalid.
+Proof.
+  split.
+  - destruct (clean_world_fixpoint cat_fn ex_d3 ex_sources [] ex_state ex_wf_d3 ex_clean_ok) as [_ H].
+    assert (L : lookup_val (bs_vals ex_state) (KC [67;46;98]) = Some (val_of ex_state (KC [67;46;98]))) by (vm_compute; reflexivity).
+    specialize (H _ _ L). change (lookup_rule ex_d3 (KC [67;46;98])) with (RCommand ex_cb) in H. cbv beta iota in H.
+    apply H; reflexivity.
+  - eexists. split; [vm_compute; reflexivity|]. vm_compute. split; reflexivity.
+Qed.
+
+(* src2 turns from an input into a produced node: its rule changes kind and its producer list is no longer empty *)
+Definition ex_cgen : command := mkCmd TShell (ex_def [67;46;103] [ex_src] [ex_src2] [[71]]) [].
+Definition ex_d4 : desc := mkDesc [ex_ca; ex_cb; ex_call; ex_cgen] [] [([], [ex_all])].
+Example ex_input_becomes_produced :
+  node_type ex_src2 = 0 /\ producers ex_d3 ex_src2 = [] /\ producers ex_d4 ex_src2 = [ex_cgen] /\
+  lookup_rule ex_d3 (KN ex_src2) = RFileInput ex_src2 /\ lookup_rule ex_d4 (KN ex_src2) = RProduced ex_src2 [ex_cgen].
+Proof. vm_compute. repeat split; reflexivity. Qed.
